@@ -300,6 +300,12 @@ func (p *H264Packet) parseBody(payload []byte) ([]byte, error) { //nolint:cyclop
 			p.fuaBuffer = []byte{}
 		}
 
+		if payload[1]&fuStartBitmask != 0 {
+			// a new fragmented NAL unit starts: whatever is left of a unit
+			// whose end was lost must not be prepended to it
+			p.fuaBuffer = p.fuaBuffer[:0]
+		}
+
 		p.fuaBuffer = append(p.fuaBuffer, payload[fuaHeaderSize:]...)
 
 		if payload[1]&fuEndBitmask != 0 {
